@@ -22,6 +22,39 @@ EXPLANATION = (
     "emits the Unknown pieces exactly on the !exhaustive branch.")
 
 
+def variant_probe_table(ctx, F, co, root):
+    """A function str -> Result<Variant, _> evaluated (decision-table interpreter with concrete strings and iterators) on probe
+    names: the empty name, every ASCII character alone / after `A` / before `A`, non-ASCII characters, a long legal name.  It
+    must return Ok(Variant(name)) exactly for the non-empty names over [A-Z0-9_].  -> True / False (recorded) or None when a
+    probe leaves the interpretable fragment."""
+    from .. import minterp
+    I = minterp.Interp(F, co, inline=lambda d_, rid: rid.startswith("conjure_object::"), max_depth=5)
+    legal = set("ABCDEFGHIJKLMNOPQRSTUVWXYZ0123456789_")
+    probes = ["", "AZ09_", "A_B_C_1_2", "\u00e9", "A\u00e9", "\u00e9A", "\uff21", "A\uff21B", "A B", " A", "A ", "A\n"]
+    for k in range(128):
+        ch = chr(k)
+        probes += [ch, "A" + ch, ch + "A"]
+    bad = []
+    n = 0
+    for s_ in probes:
+        try:
+            r = I.run(root, [s_])
+        except minterp.Unsupported:
+            return None
+        if not (minterp.is_adt(r) and r[1] == "core::result::Result"):
+            return None
+        n += 1
+        want = bool(s_) and all(ch in legal for ch in s_)
+        got = r[2] == 0
+        if got and not (minterp.is_adt(r[3][0]) and r[3][0][1] == VARIANT and r[3][0][3] and r[3][0][3][0] == s_):
+            bad.append(f"{s_!r} -> a Variant holding {r[3][0]!r:.40}")
+        elif got != want:
+            bad.append(f"{s_!r} is {'accepted' if got else 'rejected'}")
+    ctx.check(not bad, "R10.3", root.loc(), f"{root.id}|name-class|probes", f"{root.id}: enum / variant names must be accepted exactly when non-empty over [A-Z0-9_]: " + "; ".join(bad[:6]),
+              instance=f"{root.id}: {n} probe names (every ASCII character alone / after / before a legal one, non-ASCII, empty) = specification")
+    return not bad
+
+
 def run(ctx):
     ctx.explanation = EXPLANATION
     ctx.assumptions = ["serde-derive's untagged fallback tries the listed variants before the Unknown variant (documented order)", "C13 decides the Any carrier"]
@@ -203,7 +236,7 @@ def run(ctx):
             r_ = co.body(x.d.get("root")) if x.kind == "closure" and x.d.get("root") else x
             roots[(r_ or x).id] = r_ or x
     fams = {rid: [r_] + co.closures_of(r_) for rid, r_ in roots.items()}
-    pred = [b for b in co.bodies if b.kind == "fn" and tystr(b.local_ty(0)) == "bool" and b.argc == 1 and any(
+    pred = [b for b in co.bodies if b.kind in ("fn", "assoc_fn") and tystr(b.local_ty(0)) == "bool" and b.argc == 1 and any(
         any(t["call"].get("id") == b.id for y in fam for _, t in y.calls()) for fam in fams.values())]
     vsites = []
     for cn in ("conjure_test", "conjure_http", "conjure_serde", "conjure_error"):
@@ -211,8 +244,20 @@ def run(ctx):
             for bb, j, s in x.stmts():
                 if s["r"].get("agg") == "adt" and s["r"]["adt"] == VARIANT:
                     ctx.violation("R10.3", x.loc(s["ln"]), f"{x.id}|foreign-variant-site", f"{x.id}: constructs a Variant outside conjure_object")
+    probe_done = False
     if len(pred) != 1:
-        ctx.violation("R10.3", "conjure_object", "anchor|variant-predicate", f"expected one bool predicate guarding Variant construction, found {len(pred)}")
+        # no single bool predicate (the validator may return a structured verdict): the constructors themselves are evaluated
+        # on a table of probe names
+        verdicts = [variant_probe_table(ctx, F, co, r_) for _, r_ in sorted(roots.items()) if r_.kind in ("fn", "assoc_fn") and r_.argc == 1]
+        if verdicts and all(v is not None for v in verdicts):
+            probe_done = True
+            ctx.floor("R10.3", "Variant construction sites", len(roots), 1)
+        else:
+            ctx.violation("R10.3", "conjure_object", "anchor|variant-predicate", f"expected one bool predicate guarding Variant construction, found {len(pred)} (and the constructors are not evaluable on probe names)")
+    if probe_done:
+        pass
+    elif len(pred) != 1:
+        pass
     else:
         p = pred[0]
         for rid, r_ in sorted(roots.items()):
@@ -248,7 +293,10 @@ def run(ctx):
             ctx.check(an["law_ok"] and rooted, "R10.3", p.loc(), "name-class|non-empty", "the name predicate must return true exactly when the name is non-empty and every unit is in the class"
                       + (f" — {an['witness']}" if an["witness"] else "") + ("" if rooted else " — the tests do not look at the argument"), instance="name class: true iff non-empty && all(class)")
         except recog.NotAnalysable as e_:
-            ctx.violation("R10.3", p.loc(), "name-class|shape", f"name predicate left the analysable fragment (non-empty && all(class)): {e_}")
+            # not `non-empty && all(class)`: the constructors are evaluated on the probe names instead
+            verdicts = [variant_probe_table(ctx, F, co, r_) for _, r_ in sorted(roots.items()) if r_.kind in ("fn", "assoc_fn") and r_.argc == 1]
+            if not (verdicts and all(v is not None for v in verdicts)):
+                ctx.violation("R10.3", p.loc(), "name-class|shape", f"name predicate left the analysable fragment (non-empty && all(class)): {e_}")
     # ---------------- R10.5 generator
     tm = F.tmpl()
     if tm is not None:
@@ -313,3 +361,13 @@ def unk_struct(ct, adt, vname):
         if v["name"] == vname:
             return ty_adt(v["fields"][0]["ty"])
     return None
+
+
+_run_c10 = run
+
+
+def run(ctx):
+    _run_c10(ctx)
+    # R10.7 per-call state parked in a thread-local by the dynamic value is put back on every exit
+    from .. import tls as _tls
+    _tls.check(ctx, ctx.F.crate("conjure_object"), "R10.7", "an unknown variant's payload must be carried whatever was (unsuccessfully) read before on the same thread")
